@@ -262,6 +262,31 @@ def run_case(case):
                 counters["deltaclass:" + cls] = counters.get("deltaclass:" + cls, 0) + 1
                 feats.add(str((target, real_delta if abs(real_delta) <= 40 else "big", op)))
             done += 1
+        # ---- the same update made on a HANDLE derived from another one (slice, copy): the handle it came from keeps its keys
+        try:
+            import copy as _copy
+            from fastparquet.util import update_custom_metadata
+            parent = fastparquet.ParquetFile(path)
+            raw = lambda h: [(b(kv.key), b(kv.value)) for kv in (h.fmd.key_value_metadata or [])]
+            before_parent = raw(parent)
+            existing = [k for k, _ in before_parent if k not in (b"pandas", b"PANDAS_ATTRS")]
+            if existing:
+                import pickle as _pickle
+                # (copy.copy shares the metadata object by definition of a shallow copy: not a derived handle in this sense)
+                for how, child in (("slice", parent[0:1]), ("pickle", _pickle.loads(_pickle.dumps(parent)))):
+                    k0 = existing[(case["seed"] + len(how)) % len(existing)]
+                    upd = {(k0 if case["bytes_api"] else k0.decode("utf8")): "changed on the %s" % how, "only-on-%s" % how: "x"}
+                    update_custom_metadata(child, upd)
+                    if raw(parent) != before_parent:
+                        res["failures"].append({"kind": "update_on_a_derived_handle_changed_the_handle_it_came_from", "derived_by": how, "target": target,
+                                                "changed": [k.decode("utf8", "replace")[:20] for (k, v), (k2, v2) in zip(before_parent, raw(parent)) if (k, v) != (k2, v2)][:4]})
+                        before_parent = raw(parent)
+                    got_child = dict(raw(child))
+                    if got_child.get(k0) != b("changed on the %s" % how) or got_child.get(b("only-on-%s" % how)) != b"x":
+                        res["failures"].append({"kind": "update_on_a_derived_handle_not_applied", "derived_by": how, "target": target})
+                    counters["updates_on_derived_handles"] = counters.get("updates_on_derived_handles", 0) + 1
+        except Exception as e:
+            res["failures"].append({"kind": "update_on_a_derived_handle_raised", "target": target, **C.exc_shape(e)})
         res["outcome"] = "ok"
         res["nontrivial"] = done > 0
         res["features"] = sorted(feats)
@@ -286,4 +311,4 @@ def coverage_extra(agg):
 
 
 def required(tier):
-    return {"updates_verified": 300, "deltaclass:-1..-7": 15, "deltaclass:<=-8": 15, "deltaclass:+1..+7": 15, "deltaclass:>=+8": 15, "deltaclass:0": 5, "multi_key_removals": 10, "frames_with_attrs": 20, "refused_updates": 20, "updates_with_unchanged_keys": 30}
+    return {"updates_verified": 300, "deltaclass:-1..-7": 15, "deltaclass:<=-8": 15, "deltaclass:+1..+7": 15, "deltaclass:>=+8": 15, "deltaclass:0": 5, "multi_key_removals": 10, "frames_with_attrs": 20, "refused_updates": 20, "updates_with_unchanged_keys": 30, "updates_on_derived_handles": 200}
